@@ -20,6 +20,7 @@ def run(chk, failed):
                 "least two incidents of one (cluster, group); distinct by the case line")
     G.check_body(chk, failed, "C14", G.oracle_c14, ["clock", "clock", "clock", "groups"], 36000, 600000, CORR)
     chk.assumptions += [
+        "'at most once per send interval' is claimed PER INCIDENT (theorem interval_respected); across incidents it is false of the code and stated so (interval_across_incidents_refuted: ERR, OK, ERR 2 s apart with send-interval 60 notifies both ERR results) - the reading under which it is compatible with 'every incident is announced, including the second and later incidents'; the distribution key histories-with-open-notifications-closer-than-send-interval-across-incidents counts the generated histories whose implementation call log contains such a pair",
         "clock readings are int64 Unix nanoseconds set through VerifSetClock; time.Time.Sub's saturation and the int64 wrap of send-interval * 1e9 are modelled, the interval theorem assumes 0 <= send-interval * 1e9 < 2^63",
         "interval and send-once are counted within an incident (and within a quiet period for thresholds <= OK): the remembered notify times are forgotten when an incident opens (fix F3), for a module that sent a close notification, and when the group leaves the notifier's list (its record is deleted; a re-listed group starts blank)",
         "configuration cases: the email module is configured with server localhost:25 and .invalid addresses, the http module with URLs on 127.0.0.1:9; nothing is dialled (notifyModuleFunc is replaced by a recorder, as in the unit tests), so Notify of the real classes (mail / HTTP delivery, templates: C20) is not exercised here",
